@@ -4,6 +4,7 @@ package main
 // TS-READ.
 
 import (
+	"os"
 	"fmt"
 	"go/token"
 	"go/types"
@@ -142,6 +143,9 @@ func ruleTSMult(c *Ctx) {
 		return
 	}
 	c.Rule("TS-MULT", "", 0)
+	if tsByFold(c, b) {
+		return
+	}
 	lt := "*(*(&" + b.Schema.Name() + "->Object)->LogicalType)"
 	sp := "*(&" + b.Schema.Name() + "->Type)"
 	seen := map[string]int64{}
@@ -526,4 +530,244 @@ func evalIntOfObject(P *Program, f *ssa.Function, objNil bool, lt string) (int64
 		n++
 	}
 	return res, n > 0
+}
+
+// tsByFold decides TS-MULT, TS-READ and TS-UNIT by folding the time codec
+// builder and the long codec's Read and Write for the specification's logical
+// types (E-CP). It reports false, having emitted nothing, when a fold fails;
+// the caller then reads the code the older, syntactic way.
+func tsByFold(c *Ctx, b *Builder) bool {
+	P := c.P
+	fn := b.Fn
+	si := -1
+	for i, p := range fn.Params {
+		if typeKey(p.Type()) == "avro.Schema" {
+			si = i
+		}
+	}
+	if si < 0 {
+		return false
+	}
+	schemaT := fn.Params[si].Type()
+	st, ok := schemaT.Underlying().(*types.Struct)
+	if !ok {
+		return false
+	}
+	var objT types.Type
+	for i := 0; i < st.NumFields(); i++ {
+		if st.Field(i).Name() == "Object" {
+			if pt, ok := st.Field(i).Type().Underlying().(*types.Pointer); ok {
+				objT = pt.Elem()
+			}
+		}
+	}
+	if objT == nil {
+		return false
+	}
+	type kase struct {
+		name   string
+		objNil bool
+		lt     string
+	}
+	cases := []kase{{"(none)", true, ""}, {"(none)", false, ""}, {"timestamp-micros", false, "timestamp-micros"}, {"timestamp-millis", false, "timestamp-millis"}, {"(other)", false, "x-some-other-logical-type"}}
+	type verdict struct {
+		key, pos, good, bad string
+		ok                bool
+	}
+	var vs []verdict
+	mults := map[int64]bool{}
+	var longT types.Type
+	multField := ""
+	got := map[string]int64{}
+	for _, k := range cases {
+		var obj cpVal = cpNil{}
+		if !k.objNil {
+			obj = cpPtrTo(cpStructOf(objT, map[string]cpVal{"LogicalType": cpStr{k.lt}}), objT)
+		}
+		args := make([]cpVal, len(fn.Params))
+		for i, p := range fn.Params {
+			args[i] = cpUnk{ID: "arg:" + p.Name()}
+		}
+		args[si] = cpStructOf(schemaT, map[string]cpVal{"Type": cpStr{"long"}, "Object": obj})
+		outs, ok, _ := cpFold(P, fn, args)
+		if !ok || len(outs) == 0 {
+			return false
+		}
+		key := fmt.Sprintf("%s/mult[%s]", fnKey(fn), k.name)
+		for _, o := range outs {
+			if o.Panics || len(o.Results) != 2 {
+				return false
+			}
+			iv, isI := o.Results[0].(cpIface)
+			if _, errNil := o.Results[1].(cpNil); !isI || !errNil || typeKey(iv.T) != "time.LongCodec" {
+				vs = append(vs, verdict{key: key, pos: P.pos(fn.Pos()), bad: fmt.Sprintf("a long schema with logical type %s does not always yield the long time codec", k.name)})
+				continue
+			}
+			longT = iv.T
+			if multField == "" {
+				multField = soleIntField(iv.T)
+			}
+			mv, has := cpFieldByName(iv.V, multField)
+			if !has {
+				return false
+			}
+			m := int64(0)
+			if mv != nil {
+				mi, isInt := mv.(cpInt)
+				if !isInt {
+					return false
+				}
+				m = mi.V
+			}
+			want, hasW := specTimeUnits[k.name]
+			if !hasW {
+				want = 1
+			}
+			mults[m] = true
+			if prev, dup := got[key]; dup && prev == m {
+				continue
+			}
+			got[key] = m
+			vs = append(vs, verdict{key: key, pos: P.pos(fn.Pos()), ok: m == want,
+				good: fmt.Sprintf("logical type %s -> %d ns per unit (the builder folded for that schema)", k.name, m),
+				bad:  fmt.Sprintf("logical type %s gets multiplier %d, the specification's unit is %d ns", k.name, m, want)})
+		}
+	}
+	if longT == nil || multField == "" {
+		return false
+	}
+	// Read and Write of the long codec, folded for every multiplier the builder can assign
+	rd := P.Prog.LookupMethod(longT, nil, "Read")
+	wr := P.Prog.LookupMethod(longT, nil, "Write")
+	if rd == nil || wr == nil || rd.Blocks == nil || wr.Blocks == nil {
+		return false
+	}
+	var ms []int64
+	for m := range mults {
+		ms = append(ms, m)
+	}
+	sort.Slice(ms, func(i, j int) bool { return ms[i] < ms[j] })
+	type rw struct {
+		readOK  bool
+		readWhy string
+		unit    map[int64]bool
+		unitAll bool
+	}
+	res := map[int64]*rw{}
+	for _, m := range ms {
+		recv := cpStructOf(longT, map[string]cpVal{multField: cpInt{m}})
+		r := &rw{unit: map[int64]bool{}, unitAll: true}
+		res[m] = r
+		// Read
+		outs, ok, _ := cpFold(P, rd, []cpVal{recv, cpUnk{ID: "arg:r"}, cpUnk{ID: "arg:p"}})
+		if !ok {
+			return false
+		}
+		seenUnix := false
+		r.readOK = true
+		for _, o := range outs {
+			if os.Getenv("DBG_CP") != "" {
+				fmt.Fprintf(os.Stderr, "CP m=%d outcome results=%#v\n", m, o.Results)
+				for _, cl := range o.Calls {
+					fmt.Fprintf(os.Stderr, "   call %s %#v\n", cl.Callee, cl.Args)
+				}
+			}
+			for _, cl := range o.Calls {
+				if cl.Callee != "time.Unix" || len(cl.Args) != 2 {
+					continue
+				}
+				seenUnix = true
+				z, isZ := cl.Args[0].(cpInt)
+				good := isZ && z.V == 0
+				switch a := cl.Args[1].(type) {
+				case cpLin:
+					good = good && a.Mul == m && a.Add == 0
+				case cpUnk:
+					good = good && m == 1
+				default:
+					good = false
+				}
+				if !good {
+					r.readOK = false
+					r.readWhy = fmt.Sprintf("with multiplier %d the reader calls time.Unix with something other than (0, stored long * %d): %#v", m, m, cl.Args)
+				}
+			}
+		}
+		if !seenUnix {
+			r.readOK, r.readWhy = false, "the reader does not compute time.Unix(0, l*mult)"
+		}
+		// Write
+		outs, ok, _ = cpFold(P, wr, []cpVal{recv, cpUnk{ID: "arg:w"}, cpUnk{ID: "arg:p"}})
+		if !ok {
+			return false
+		}
+		for _, o := range outs {
+			if o.Panics {
+				continue
+			}
+			n := 0
+			for _, cl := range o.Calls {
+				if u, has := nsPerUnitOfMethod[cl.Callee]; has {
+					r.unit[u] = true
+					n++
+				}
+			}
+			if n != 1 {
+				r.unitAll = false
+			}
+		}
+	}
+	// everything folded: emit
+	for _, v := range vs {
+		if v.good == "" && v.bad != "" {
+			c.Bad(v.key, v.pos, v.bad)
+		} else {
+			c.Check(v.ok, v.key, v.pos, v.good, v.bad)
+		}
+	}
+	for name := range specTimeUnits {
+		if _, ok := got[fmt.Sprintf("%s/mult[%s]", fnKey(fn), name)]; !ok {
+			c.Bad(fmt.Sprintf("%s/mult[%s]", fnKey(fn), name), P.pos(fn.Pos()), "no case for logical type "+name)
+		}
+	}
+	c.Rule("TS-READ", "", 0)
+	okRead, why := true, ""
+	for _, m := range ms {
+		if !res[m].readOK {
+			okRead, why = false, res[m].readWhy
+		}
+	}
+	c.Check(okRead, "time.LongCodec/Read-scale", P.pos(rd.Pos()), fmt.Sprintf("folded for multipliers %v: time.Unix(0, stored long * mult)", ms), why)
+	c.Rule("TS-UNIT", "", 0)
+	for _, m := range ms {
+		r := res[m]
+		var units []int64
+		for u := range r.unit {
+			units = append(units, u)
+		}
+		sort.Slice(units, func(i, j int) bool { return units[i] < units[j] })
+		key := fmt.Sprintf("time.LongCodec/Write-unit[mult=[%d]]", m)
+		good := r.unitAll && len(units) == 1 && units[0] == m
+		c.Check(good, key, P.pos(wr.Pos()), fmt.Sprintf("writes the time in units of %d ns where the reader multiplies by %d (Write folded for that multiplier)", m, m), fmt.Sprintf("writes the time in units of %v ns although the builder can set the multiplier to [%d]: a written time does not decode to the same instant", units, m))
+	}
+	return true
+}
+
+// soleIntField: the name of the only integer-typed (non-embedded) field of a struct type.
+func soleIntField(t types.Type) string {
+	st, ok := t.Underlying().(*types.Struct)
+	if !ok {
+		return ""
+	}
+	name := ""
+	for i := 0; i < st.NumFields(); i++ {
+		f := st.Field(i)
+		if b, ok := f.Type().Underlying().(*types.Basic); ok && b.Info()&types.IsInteger != 0 && !f.Embedded() {
+			if name != "" {
+				return ""
+			}
+			name = f.Name()
+		}
+	}
+	return name
 }
